@@ -504,8 +504,12 @@ def _main(pm, args, tier, seed, prop, t0, scratch):
     }
     if hasattr(pm, "evidence_extra"):
         ev["coverage"].update(pm.evidence_extra())
-    os.makedirs(os.path.join(VERIF, "evidence"), exist_ok=True)
-    with open(os.path.join(VERIF, "evidence", "%s.json" % prop), "w") as f:
+    # evidence describes /repo itself; a run against another tree (VERIF_REPO=…,
+    # used to try seeded changes) must not overwrite it
+    evdir = os.path.join(VERIF, "evidence") if os.path.realpath(build.REPO) == "/repo" else \
+        os.path.join(build.scratch_root(), "verif-trial-evidence")
+    os.makedirs(evdir, exist_ok=True)
+    with open(os.path.join(evdir, "%s.json" % prop), "w") as f:
         json.dump(ev, f, indent=1, default=str)
 
     # ---- report ---------------------------------------------------------------
